@@ -113,24 +113,81 @@ func (w *world) setPrice(ctx sdk.Context, d int, p sdk.Dec) {
 	must(pk.SetCurrentPrices(ctx, marketID(d)))
 }
 
-func (w *world) cfgString(ctx sdk.Context) (string, string) {
-	k := w.tApp.GetHardKeeper()
-	pk := w.tApp.GetPriceFeedKeeper()
+// ---------------------------------------------------------------- money markets listed / changed / delisted by the params
+
+// the hard params' entry for denom d (what governance last decided), if any
+func (s *seqT) paramsMarket(d int) (hardtypes.MoneyMarket, bool) {
+	for _, mm := range s.w.tApp.GetHardKeeper().GetParams(s.ctx).MoneyMarkets {
+		if mm.Denom == denoms[d] {
+			return mm, true
+		}
+	}
+	return hardtypes.MoneyMarket{}, false
+}
+
+// market returns the money market the keeper works with for denom d and how the denom is listed:
+//
+//	'a' in the store and in the params, equal      'c' in both, the params differ (the begin blocker accrues with the
+//	'd' only in the store (the begin blocker accrues with it, then deletes it)        store's one, then replaces it)
+//	'r' only in the params (the coming begin blocker lists it, then accrues with it; user messages do not see it yet)
+//	's' in neither: no money market, the begin blocker skips the denom, user messages fail on it
+//
+// For 's' (and for 'r' outside the begin blocker) the last market the denom had is returned as a placeholder.
+func (s *seqT) market(d int, forBegin bool) (hardtypes.MoneyMarket, byte) {
+	st, inStore := s.w.tApp.GetHardKeeper().GetMoneyMarket(s.ctx, denoms[d])
+	pm, inParams := s.paramsMarket(d)
+	switch {
+	case inStore && inParams && st.Equal(pm):
+		s.lastMM[d] = &st
+		return st, 'a'
+	case inStore && inParams:
+		s.lastMM[d] = &st
+		return st, 'c'
+	case inStore:
+		s.lastMM[d] = &st
+		return st, 'd'
+	case inParams && forBegin:
+		return pm, 'r'
+	}
+	if s.lastMM[d] == nil {
+		panic("harness: denom never had a money market")
+	}
+	if inParams {
+		return *s.lastMM[d], 'R' // listed by the params, not yet in the store: still unlisted for user messages
+	}
+	return *s.lastMM[d], 's'
+}
+
+func (s *seqT) listed(d int) bool {
+	_, ok := s.w.tApp.GetHardKeeper().GetMoneyMarket(s.ctx, denoms[d])
+	return ok
+}
+
+// configuration of one case: per denom the market the operation works with (see market), the current price
+// (0 for a denom without a money market: the keeper cannot value it), the listing modes and the unlisted flags
+func (s *seqT) cfgString(forBegin bool) (cfgS, minB, modes string, unlisted []bool) {
+	k := s.w.tApp.GetHardKeeper()
+	pk := s.w.tApp.GetPriceFeedKeeper()
 	var ms []string
 	for d := range denoms {
-		mm, found := k.GetMoneyMarket(ctx, denoms[d])
-		if !found {
-			panic("harness: money market missing")
-		}
+		mm, mode := s.market(d, forBegin)
+		un := mode == 's' || mode == 'R'
 		price := "0"
-		if cp, err := pk.GetCurrentPrice(ctx, mm.SpotMarketID); err == nil {
-			price = cp.Price.BigInt().String()
+		if !un {
+			if cp, err := pk.GetCurrentPrice(s.ctx, mm.SpotMarketID); err == nil {
+				price = cp.Price.BigInt().String()
+			}
 		}
+		if mode == 'R' {
+			mode = 's'
+		}
+		modes += string(mode)
+		unlisted = append(unlisted, un)
 		ms = append(ms, strings.Join([]string{mm.ConversionFactor.String(), price, mm.BorrowLimit.LoanToValue.BigInt().String(),
 			mm.ReserveFactor.BigInt().String(), mm.KeeperRewardPercentage.BigInt().String(), c.B(mm.BorrowLimit.HasMaxLimit),
 			mm.BorrowLimit.MaximumLimit.BigInt().String()}, ","))
 	}
-	return strings.Join(ms, ";"), k.GetMinimumBorrowUSDValue(ctx).BigInt().String()
+	return strings.Join(ms, ";"), k.GetMinimumBorrowUSDValue(s.ctx).BigInt().String(), modes, unlisted
 }
 
 // ---------------------------------------------------------------- observation
@@ -250,24 +307,58 @@ func (o obs) String() string {
 		c.Ints(o.supplied), c.Ints(o.borrowed), c.Ints(o.reserves), c.Ints(o.cash), mat(o.bal), strings.Join(o.accr, ",")}, "|")
 }
 
-// synced positions as the queries compute them (GetSyncedDeposit / GetSyncedBorrow); "p" = the query panicked
-func (w *world) synced(ctx sdk.Context) string {
+// synced positions as the queries compute them (GetSyncedDeposit / GetSyncedBorrow); nil row = the query panicked
+type syncedT struct{ dep, bor [][]*big.Int }
+
+func (w *world) syncedRows(ctx sdk.Context) syncedT {
 	k := w.tApp.GetHardKeeper()
-	var deps, bors []string
+	var out syncedT
 	for _, u := range w.users {
 		u := u
 		var dp hardtypes.Deposit
 		var br hardtypes.Borrow
-		ds, bs := "p", "p"
+		var ds, bs []*big.Int
 		if p, _ := c.Recover(func() { dp, _ = k.GetSyncedDeposit(ctx, u) }); !p {
-			ds = c.Ints(amounts(dp.Amount))
+			ds = amounts(dp.Amount)
 		}
 		if p, _ := c.Recover(func() { br, _ = k.GetSyncedBorrow(ctx, u) }); !p {
-			bs = c.Ints(amounts(br.Amount))
+			bs = amounts(br.Amount)
 		}
-		deps, bors = append(deps, ds), append(bors, bs)
+		out.dep, out.bor = append(out.dep, ds), append(out.bor, bs)
 	}
-	return strings.Join(deps, ";") + "|" + strings.Join(bors, ";")
+	return out
+}
+
+func prow(rows [][]*big.Int) string {
+	out := make([]string, len(rows))
+	for i, r := range rows {
+		if r == nil {
+			out[i] = "p"
+		} else {
+			out[i] = c.Ints(r)
+		}
+	}
+	return strings.Join(out, ";")
+}
+
+// "p" = the query panicked
+func (y syncedT) String() string { return prow(y.dep) + "|" + prow(y.bor) }
+
+func (w *world) synced(ctx sdk.Context) string { return w.syncedRows(ctx).String() }
+
+// The harness's own log for the "no decrease without user action" clause: what GetSyncedDeposit / GetSyncedBorrow
+// returned for every user, and the global interest factors, when the previous case of the sequence ended.  Nothing but
+// price moves happens between two cases, so the next case must start at or above it for every user.
+type floorT struct {
+	y        syncedT
+	sup, brw []string
+}
+
+func (f *floorT) String() string {
+	if f == nil {
+		return "-"
+	}
+	return f.y.String() + "|" + strings.Join(f.sup, ",") + "|" + strings.Join(f.brw, ",")
 }
 
 func errCode(err error) string {
@@ -330,6 +421,12 @@ type seqT struct {
 	seq  int
 	seen map[uint64]bool
 	nop  int
+	// governance bookkeeping: the last money market every denom had (placeholder while delisted, template for relisting)
+	lastMM []*hardtypes.MoneyMarket
+	// what the previous case of this sequence left (see floorT)
+	floor *floorT
+	// appended to the signature of the next case (what a params change did)
+	sigNote string
 }
 
 func usd(a *big.Int, d int, price sdk.Dec) sdk.Dec {
@@ -361,16 +458,37 @@ func (s *seqT) emit(kind string, a, b int, coins []*big.Int, extra string, probe
 			coins[d] = bi(0)
 		}
 	}
-	cfgS, minB := w.cfgString(s.ctx)
+	cfgS, minB, modes, unlisted := s.cfgString(kind == "begin")
+	anyUnlisted := false
+	for _, un := range unlisted {
+		anyUnlisted = anyUnlisted || un
+	}
+	if kind == "begin" {
+		extra += ";" + modes
+	} else if anyUnlisted {
+		// user messages (and the params case) while a denom has no money market: the flags tell the driver which
+		// zero prices mean "no money market" (hard/12, deposit: hard/2) rather than "no price"
+		fl := make([]string, len(unlisted))
+		for d, un := range unlisted {
+			fl[d] = c.B(un)
+		}
+		extra = "unlisted=" + strings.Join(fl, ",")
+	}
 	pre := w.observe(s.ctx)
-	spre := w.synced(s.ctx)
+	spreRows := w.syncedRows(s.ctx)
+	spre := spreRows.String()
+	floorS := s.floor.String()
 	cls, err := kapp.Exec(s.ctx, f)
 	post := "-"
+	postObs := pre
 	if cls == kapp.OK {
-		post = w.observe(s.ctx).String()
+		postObs = w.observe(s.ctx)
+		post = postObs.String()
 	}
 	aucs := w.auctionsSince(s.ctx, s.seen)
-	spost := w.synced(s.ctx)
+	spostRows := w.syncedRows(s.ctx)
+	spost := spostRows.String()
+	s.floor = &floorT{y: spostRows, sup: postObs.supIdx, brw: postObs.brwIdx}
 	probe := "-"
 	if cls == kapp.OK && probeUser >= 0 {
 		keeper := (probeUser + 1) % nUsers
@@ -422,8 +540,17 @@ func (s *seqT) emit(kind string, a, b int, coins []*big.Int, extra string, probe
 				}
 			}
 			sig += fmt.Sprintf("|accruing=%d", n)
+			if strings.Trim(modes, "a") != "" {
+				sig += "|listing=" + sortedLetters(modes)
+			}
+		case "params":
+			sig += "|" + s.sigNote
 		}
 	}
+	if anyUnlisted && kind != "begin" && kind != "params" {
+		sig += "|while-delisted"
+	}
+	s.sigNote = ""
 	if probe != "-" {
 		sig += "|probe=" + probe
 	}
@@ -437,9 +564,21 @@ func (s *seqT) emit(kind string, a, b int, coins []*big.Int, extra string, probe
 		s.out.Violation(fmt.Sprintf("seq=%d op=%d hard begin blocker panicked: %v", s.seq, s.nop, err))
 	}
 	s.out.Case(sig, "c08.op", kind, cfgS, minB, pre.String(), strconv.Itoa(a), strconv.Itoa(b), c.Ints(coins), extra, "=>",
-		res, post, aucs, spre, spost, probe)
+		res, post, aucs, spre, spost, probe, floorS)
 	s.nop++
 	return cls
+}
+
+func sortedLetters(x string) string {
+	b := []byte(x)
+	for i := range b {
+		for j := i + 1; j < len(b); j++ {
+			if b[j] < b[i] {
+				b[i], b[j] = b[j], b[i]
+			}
+		}
+	}
+	return string(b)
 }
 
 // interest factor of one denom for the coming begin blocker, computed with the keeper's own exported routines
@@ -453,7 +592,12 @@ func (s *seqT) phi(d int, now time.Time, o obs) (string, string) {
 	if elapsed == 0 || o.borrowed[d].Sign() == 0 {
 		return "1000000000000000000", "0"
 	}
-	mm, _ := k.GetMoneyMarket(s.ctx, denoms[d])
+	// the market the begin blocker accrues with: the store's, or the params' one when the denom is being (re)listed;
+	// a denom in neither is skipped by ApplyInterestRateUpdates
+	mm, mode := s.market(d, true)
+	if mode == 's' {
+		return "1000000000000000000", "0"
+	}
 	var rate sdk.Dec
 	var err error
 	if p, _ := c.Recover(func() {
@@ -560,7 +704,10 @@ func (s *seqT) headroom(u int, o obs) sdk.Dec {
 	pr := s.prices()
 	h := sdk.ZeroDec()
 	for d := range denoms {
-		mm, _ := k.GetMoneyMarket(s.ctx, denoms[d])
+		mm, found := k.GetMoneyMarket(s.ctx, denoms[d])
+		if !found { // delisted: the keeper cannot value the denom (an estimate for the generators only)
+			continue
+		}
 		h = h.Add(usd(o.dep[u][d], d, pr[d]).Mul(mm.BorrowLimit.LoanToValue))
 		h = h.Sub(usd(o.bor[u][d], d, pr[d]))
 	}
@@ -583,7 +730,10 @@ func (s *seqT) headroomSynced(u int, o obs) sdk.Dec {
 	pr := s.prices()
 	h := sdk.ZeroDec()
 	for d := range denoms {
-		mm, _ := k.GetMoneyMarket(s.ctx, denoms[d])
+		mm, found := k.GetMoneyMarket(s.ctx, denoms[d])
+		if !found {
+			continue
+		}
 		h = h.Add(usd(dep[d], d, pr[d]).Mul(mm.BorrowLimit.LoanToValue))
 		h = h.Sub(usd(bor[d], d, pr[d]))
 	}
@@ -791,7 +941,7 @@ func (s *seqT) randomOp() {
 		s.borrow(u, coins)
 	case x < 66: // withdraw around the LTV boundary
 		var amt *big.Int
-		mm, _ := k.GetMoneyMarket(s.ctx, denoms[d])
+		mm, mmFound := k.GetMoneyMarket(s.ctx, denoms[d])
 		switch r.Intn(6) {
 		case 0:
 			amt = s.genAmount(d, o.dep[u][d])
@@ -800,7 +950,7 @@ func (s *seqT) randomOp() {
 		default:
 			h := s.headroom(u, o)
 			x0 := o.dep[u][d]
-			if mm.BorrowLimit.LoanToValue.IsPositive() && !allZero(o.bor[u]) {
+			if mmFound && mm.BorrowLimit.LoanToValue.IsPositive() && !allZero(o.bor[u]) {
 				x0 = amountFor(h.Quo(mm.BorrowLimit.LoanToValue), d, pr[d])
 			}
 			best := s.largestAccepted(x0, 3, func(x *big.Int) bool {
@@ -883,6 +1033,254 @@ func (s *seqT) randomOp() {
 	}
 }
 
+// ---------------------------------------------------------------- governance: params changes
+
+// the params' money markets by denom index (nil = not listed)
+func (s *seqT) paramsMarkets() []*hardtypes.MoneyMarket {
+	out := make([]*hardtypes.MoneyMarket, len(denoms))
+	for d := range denoms {
+		if mm, ok := s.paramsMarket(d); ok {
+			mm := mm
+			out[d] = &mm
+		}
+	}
+	return out
+}
+
+// setParams is a governance params change (one case: the keeper's SetParams; no x/hard state other than the params
+// may change).  As on chain (a proposal passes in an end blocker) the next thing that happens is a begin blocker,
+// which translates the params to the store: lists, replaces and deletes money markets.
+func (s *seqT) setParams(mms []*hardtypes.MoneyMarket, minBorrow sdk.Dec, what string, gap int64) {
+	var list hardtypes.MoneyMarkets
+	for _, mm := range mms {
+		if mm != nil {
+			list = append(list, *mm)
+		}
+	}
+	params := hardtypes.NewParams(list, minBorrow)
+	must(params.Validate())
+	s.sigNote = what
+	s.out.Note("gov:" + what)
+	s.emit("params", 0, 0, nil, "-", -1, func(cx sdk.Context) error {
+		s.w.tApp.GetHardKeeper().SetParams(cx, params)
+		return nil
+	})
+	s.beginBlock(gap)
+}
+
+// a money market with one aspect changed (values from the pools of randomCfg)
+func (s *seqT) mutateMarket(mm hardtypes.MoneyMarket, d int, what string) hardtypes.MoneyMarket {
+	r := s.r
+	switch what {
+	case "ltv":
+		for i := 0; i < 8; i++ {
+			v := dec(c.Pick(r, ltvPool))
+			if !v.Equal(mm.BorrowLimit.LoanToValue) {
+				mm.BorrowLimit.LoanToValue = v
+				break
+			}
+		}
+	case "reserve-factor":
+		for i := 0; i < 8; i++ {
+			v := dec(c.Pick(r, rfPool))
+			if !v.Equal(mm.ReserveFactor) {
+				mm.ReserveFactor = v
+				break
+			}
+		}
+	case "interest-model":
+		mm.InterestRateModel = hardtypes.NewInterestRateModel(dec(c.Pick(r, []string{"0", "0.05", "0.02", "0.1"})), dec(c.Pick(r, []string{"0.1", "1.0", "2.0", "0", "0.3"})),
+			dec(c.Pick(r, []string{"0.8", "0.5", "1.0"})), dec(c.Pick(r, []string{"0.5", "10", "0", "3"})))
+	case "borrow-limit":
+		if mm.BorrowLimit.HasMaxLimit && r.Chance(40) {
+			mm.BorrowLimit.HasMaxLimit = false
+		} else {
+			mm.BorrowLimit.HasMaxLimit = true
+			mm.BorrowLimit.MaximumLimit = sdk.NewDecFromInt(cfOf(d).MulRaw(r.Range(0, 2000)))
+		}
+	case "keeper-reward":
+		mm.KeeperRewardPercentage = dec(c.Pick(r, krPool))
+	}
+	return mm
+}
+
+var govAspects = []string{"ltv", "ltv", "reserve-factor", "interest-model", "borrow-limit", "keeper-reward"}
+
+// one random params change followed by its begin blocker: delist a money market, relist one (as it was or with
+// changed parameters), change LTV / reserve factor / interest model / borrow limit / keeper reward of a listed one,
+// change the minimum borrow value; sometimes two at once
+func (s *seqT) govChange() {
+	r := s.r
+	k := s.w.tApp.GetHardKeeper()
+	mms := s.paramsMarkets()
+	minB := k.GetMinimumBorrowUSDValue(s.ctx)
+	var on, off []int
+	for d := range denoms {
+		if mms[d] != nil {
+			on = append(on, d)
+		} else if s.lastMM[d] != nil {
+			off = append(off, d)
+		}
+	}
+	var what []string
+	ltvChanged := false
+	for n := int64(0); n < r.Range(1, 2); n++ {
+		x := r.Intn(10)
+		switch {
+		case x < 6 && len(off) > 0: // relist (a delisted market comes back soon: most generators need all three)
+			d := off[r.Intn(len(off))]
+			if mms[d] != nil {
+				continue
+			}
+			mm := *s.lastMM[d]
+			w := "relist"
+			if r.Chance(50) {
+				a := c.Pick(r, govAspects)
+				mm = s.mutateMarket(mm, d, a)
+				w = "relist+" + a
+			}
+			mms[d] = &mm
+			what = append(what, w)
+		case x < 3 && len(on) > 1: // delist (at least one money market stays)
+			d := on[r.Intn(len(on))]
+			if mms[d] == nil {
+				continue
+			}
+			listedLeft := 0
+			for _, m := range mms {
+				if m != nil {
+					listedLeft++
+				}
+			}
+			if listedLeft < 2 {
+				continue
+			}
+			mms[d] = nil
+			what = append(what, "delist")
+		case x == 9:
+			minB = dec(c.Pick(r, minBorrowPool))
+			what = append(what, "min-borrow")
+		default:
+			if len(on) == 0 {
+				continue
+			}
+			d := on[r.Intn(len(on))]
+			if mms[d] == nil {
+				continue
+			}
+			a := c.Pick(r, govAspects)
+			mm := s.mutateMarket(*mms[d], d, a)
+			mms[d] = &mm
+			ltvChanged = ltvChanged || a == "ltv"
+			what = append(what, a)
+		}
+	}
+	if len(what) == 0 {
+		return
+	}
+	s.setParams(mms, minB, strings.Join(what, "+"), c.Pick(r, gaps))
+	if ltvChanged {
+		s.afterLtvChange()
+	}
+}
+
+// right after a changed LTV has reached the store: everybody's position is judged by the new value.  Liquidation
+// attempts on every borrower (allowed only outside the NEW range) and boundary borrows / withdrawals (must leave the
+// position within the NEW range: the probe after each accepted one).
+func (s *seqT) afterLtvChange() {
+	r := s.r
+	o := s.w.observe(s.ctx)
+	for u := 0; u < nUsers; u++ {
+		if !allZero(o.bor[u]) && !allZero(o.dep[u]) && r.Chance(60) {
+			s.liquidate((u+1+r.Intn(nUsers-1))%nUsers, u)
+		}
+	}
+	s.out.Note("pattern:after-ltv-change")
+}
+
+// The denom of a market with open positions is delisted and, some blocks later, listed again; its lenders and
+// borrowers stay idle in between (other users may act; messages touching the delisted denom must fail), then they
+// repay / withdraw.  With no action by them their claimable / owed amounts must never decrease on the way, whatever
+// the begin blocker does when it deletes and re-creates the money market.
+func (s *seqT) relistPattern() {
+	r, w := s.r, s.w
+	k := w.tApp.GetHardKeeper()
+	o := w.observe(s.ctx)
+	mms := s.paramsMarkets()
+	minB := k.GetMinimumBorrowUSDValue(s.ctx)
+	var on, withDebt []int
+	for d := range denoms {
+		if mms[d] != nil && s.listed(d) {
+			on = append(on, d)
+			if o.borrowed[d].Sign() > 0 {
+				withDebt = append(withDebt, d)
+			}
+		}
+	}
+	if len(on) < 2 {
+		return
+	}
+	d := on[r.Intn(len(on))]
+	if len(withDebt) > 0 && r.Chance(85) {
+		d = withDebt[r.Intn(len(withDebt))]
+	} else if o.borrowed[d].Sign() == 0 {
+		// open a loan in d so that its factors move: somebody with collateral borrows part of the head room
+		pr := s.prices()
+		for v := 0; v < nUsers; v++ {
+			if !allZero(o.dep[v]) && o.cash[d].Sign() > 0 {
+				x := new(big.Int).Div(new(big.Int).Mul(amountFor(s.headroom(v, o), d, pr[d]), bi(r.Range(20, 80))), bi(100))
+				if x.Cmp(o.cash[d]) > 0 {
+					x = new(big.Int).Div(o.cash[d], bi(2))
+				}
+				if x.Sign() > 0 && s.borrow(v, one(d, x)) == kapp.OK {
+					break
+				}
+			}
+		}
+	}
+	long := []int64{86400, 30 * 86400, 365 * 86400, 3600}
+	s.beginBlock(c.Pick(r, long)) // factors above 1, interest pending on every idle position
+	if r.Chance(50) {             // a position opened at a factor above 1
+		v := r.Intn(nUsers)
+		s.deposit(v, one(d, s.genAmount(d, o.bal[v][d])))
+		if r.Chance(50) {
+			s.beginBlock(c.Pick(r, long))
+		}
+	}
+	template := *mms[d]
+	mms[d] = nil
+	s.setParams(mms, minB, "delist", c.Pick(r, gaps))
+	for i := int64(0); i < r.Range(0, 3); i++ {
+		if r.Chance(50) {
+			s.randomOp() // others act; whatever touches the delisted denom fails
+		}
+		s.beginBlock(c.Pick(r, gaps))
+	}
+	what := "relist"
+	if r.Chance(50) {
+		a := c.Pick(r, govAspects)
+		template = s.mutateMarket(template, d, a)
+		what = "relist+" + a
+	}
+	mms = s.paramsMarkets()
+	mms[d] = &template
+	s.setParams(mms, minB, what, c.Pick(r, gaps))
+	for i := int64(0); i < r.Range(1, 2); i++ {
+		s.beginBlock(c.Pick(r, gaps))
+	}
+	// the idle holders act at last: everything owed is repaid, everything claimable is withdrawn (caps)
+	o = w.observe(s.ctx)
+	for u := 0; u < nUsers; u++ {
+		if o.bor[u][d].Sign() > 0 && r.Chance(50) {
+			s.repay(u, u, one(d, new(big.Int).Mul(o.bor[u][d], bi(10))))
+		}
+		if o.dep[u][d].Sign() > 0 && r.Chance(50) {
+			s.withdraw(u, one(d, new(big.Int).Mul(o.dep[u][d], bi(10))))
+		}
+	}
+	s.out.Note("pattern:delist-relist")
+}
+
 var gaps = []int64{0, 1, 5, 6, 3600, 86400, 30 * 86400, 365 * 86400, 7, 600}
 
 func (w *world) fund(ctx sdk.Context, r *c.Rng) {
@@ -907,7 +1305,7 @@ func (w *world) fund(ctx sdk.Context, r *c.Rng) {
 
 func (w *world) newSeq(out *c.Out, seq int, r *c.Rng) *seqT {
 	ctx, _ := w.base.CacheContext()
-	return &seqT{w: w, out: out, r: r, ctx: ctx, seq: seq, seen: map[uint64]bool{}}
+	return &seqT{w: w, out: out, r: r, ctx: ctx, seq: seq, seen: map[uint64]bool{}, lastMM: make([]*hardtypes.MoneyMarket, len(denoms))}
 }
 
 func (w *world) seq(out *c.Out, seq int, r *c.Rng) {
@@ -931,6 +1329,14 @@ func (w *world) seq(out *c.Out, seq int, r *c.Rng) {
 		w.scenarioStaleDebt(out, r)
 		return
 	}
+	if seq == 5 {
+		w.scenarioRelist(out, r)
+		return
+	}
+	if seq == 6 {
+		w.scenarioLtvChange(out, r)
+		return
+	}
 	s := w.newSeq(out, seq, r)
 	w.fund(s.ctx, r)
 	w.applyCfg(s.ctx, w.randomCfg(r))
@@ -944,13 +1350,26 @@ func (w *world) seq(out *c.Out, seq int, r *c.Rng) {
 		}
 		s.deposit(l, coins)
 	}
-	nops := c.Budget(60, 200)
+	// the length of a sequence follows the tier only: a change-directed amplification (VERIF_AMPLIFY) multiplies the
+	// number of sequences in main, not their length as well (8 x 8 = 64 times the cases, gigabytes, for nothing)
+	nops := 60
+	if c.Tier() == "thorough" {
+		nops = 200
+	}
 	for s.nop < nops {
 		if r.Chance(22) {
 			s.beginBlock(c.Pick(r, gaps))
 		}
 		if r.Chance(6) {
 			s.idleBorrowerPattern()
+			continue
+		}
+		if r.Chance(5) {
+			s.govChange()
+			continue
+		}
+		if r.Chance(3) {
+			s.relistPattern()
 			continue
 		}
 		s.randomOp()
@@ -1147,10 +1566,10 @@ func (w *world) scenarioStaleDebt(out *c.Out, r *c.Rng) {
 			if x.Sign() <= 0 {
 				continue
 			}
-			save := s.ctx
+			save, saveFloor := s.ctx, s.floor
 			s.ctx, _ = save.CacheContext()
 			s.borrow(0, one(bd, x))
-			s.ctx = save
+			s.ctx, s.floor = save, saveFloor // the log of the discarded branch goes with it
 		}
 		best := s.largestAccepted(xt, 3, func(x *big.Int) bool {
 			return s.try(func(cx sdk.Context) error { return k.Borrow(cx, w.users[0], coinsOf(one(bd, x))) })
@@ -1162,6 +1581,126 @@ func (w *world) scenarioStaleDebt(out *c.Out, r *c.Rng) {
 		s.liquidate(2, 0)
 	}
 	out.Note("scenario:stale-debt")
+}
+
+// Directed: a money market with open positions is removed from the params and listed again some blocks later, its
+// lender and its borrowers doing nothing in between (only begin blockers and the two params changes happen).  The
+// claimable amount of the deposits and the owed amount of the loans must not decrease at any step (the delisting
+// keeps positions and interest factors in the store; whatever the listing does must respect them), the queries must
+// keep working, and at the end the loan is closed for at least what was owed and the lender takes out at least what
+// was claimable.  Variants: relisted unchanged / with another interest model and reserve factor / relisted in the
+// very next block; user 2 holds positions opened at factors above 1 (a reset factor would make their interest
+// negative: the queries and every message of that user would panic).
+func (w *world) scenarioRelist(out *c.Out, r *c.Rng) {
+	e6, e8 := pow10(6), pow10(8)
+	for variant := 0; variant < 3; variant++ {
+		s := w.newSeq(out, 5, r)
+		w.fund(s.ctx, c.NewRng(1))
+		var cf cfgT
+		model := hardtypes.NewInterestRateModel(dec("0.05"), dec("2"), dec("0.8"), dec("10"))
+		for d := range denoms {
+			cf.mms = append(cf.mms, hardtypes.NewMoneyMarket(denoms[d], hardtypes.NewBorrowLimit(false, sdk.ZeroDec(), dec("0.8")), marketID(d), cfOf(d), model, dec("0.05"), dec("0.05")))
+		}
+		cf.prices = []sdk.Dec{dec("2.0"), dec("1.0"), dec("1.0")}
+		cf.minBorrow = dec("10")
+		w.applyCfg(s.ctx, cf)
+		s.beginBlock(0)
+		s.deposit(0, one(0, new(big.Int).Mul(e6, bi(1000)))) // lender: 1000 dena
+		s.deposit(1, one(1, new(big.Int).Mul(e8, bi(400))))  // borrower: collateral 400 denb
+		s.borrow(1, one(0, new(big.Int).Mul(e6, bi(50))))    // owes 50 dena
+		s.beginBlock(365 * 86400)                            // a year of interest: both dena factors above 1
+		s.deposit(2, one(0, new(big.Int).Mul(e6, bi(10))))   // positions opened at factors above 1
+		s.deposit(2, one(1, new(big.Int).Mul(e8, bi(100))))
+		s.borrow(2, one(0, new(big.Int).Mul(e6, bi(20))))
+		s.beginBlock(30 * 86400)
+		mms := s.paramsMarkets()
+		back := *mms[0]
+		mms[0] = nil
+		s.setParams(mms, cf.minBorrow, "delist", 86400) // governance removes dena; the begin blocker deletes the market
+		if variant != 2 {
+			s.beginBlock(6)
+			s.deposit(3, one(0, e6))                         // a message on the delisted denom: refused
+			s.withdraw(0, one(0, e6))                        // the lender cannot be valued: refused
+			s.repay(1, 1, one(0, e6))                        // nor can the borrower
+			s.borrow(1, one(1, new(big.Int).Mul(e8, bi(1)))) // nor a further loan against a position holding dena debt
+			s.liquidate(3, 1)
+			s.beginBlock(86400)
+		}
+		what := "relist"
+		if variant == 1 {
+			back.InterestRateModel = hardtypes.NewInterestRateModel(dec("0.02"), dec("1.0"), dec("0.5"), dec("0.5"))
+			back.ReserveFactor = dec("0.5")
+			what = "relist+interest-model+reserve-factor"
+		}
+		mms = s.paramsMarkets()
+		mms[0] = &back
+		s.setParams(mms, cf.minBorrow, what, 86400) // governance lists dena again; the begin blocker re-creates the market
+		s.beginBlock(6)
+		s.beginBlock(86400)
+		s.repay(1, 1, one(0, new(big.Int).Mul(e6, bi(150))))  // closes the loan: pays what is owed
+		s.withdraw(0, one(0, new(big.Int).Mul(e6, bi(2000)))) // takes out what is claimable (as far as there is cash)
+		s.repay(2, 2, one(0, new(big.Int).Mul(e6, bi(150))))  // the positions opened above 1
+		s.withdraw(2, one(0, new(big.Int).Mul(e6, bi(2000))))
+	}
+	out.Note("scenario:relist")
+}
+
+// Directed: the LTV of the collateral's money market is lowered by governance while positions are open.  From the
+// block in which the new value reaches the store every gate uses it: a position that is now outside may be liquidated,
+// one that is still inside may not; a borrow / withdrawal accepted afterwards leaves the position within the NEW
+// limit (boundary amounts, probe after each); then the LTV is raised again and the former boundary moves back.
+func (w *world) scenarioLtvChange(out *c.Out, r *c.Rng) {
+	e6, e8 := pow10(6), pow10(8)
+	s := w.newSeq(out, 6, r)
+	w.fund(s.ctx, c.NewRng(1))
+	var cf cfgT
+	model := hardtypes.NewInterestRateModel(dec("0.05"), dec("0.1"), dec("0.8"), dec("0.5"))
+	for d := range denoms {
+		cf.mms = append(cf.mms, hardtypes.NewMoneyMarket(denoms[d], hardtypes.NewBorrowLimit(false, sdk.ZeroDec(), dec("0.8")), marketID(d), cfOf(d), model, dec("0.05"), dec("0.05")))
+	}
+	cf.prices = []sdk.Dec{dec("1.0"), dec("2.0"), dec("1.0")}
+	cf.minBorrow = dec("0")
+	w.applyCfg(s.ctx, cf)
+	s.beginBlock(0)
+	k := w.tApp.GetHardKeeper()
+	s.deposit(3, one(0, new(big.Int).Mul(e6, bi(5))))    // (user 3 may hold little)
+	s.deposit(2, one(0, new(big.Int).Mul(e6, bi(1000)))) // pool cash
+	s.deposit(0, one(1, new(big.Int).Mul(e8, bi(100))))  // 100 denb at 2.0: limit 160 at LTV 0.8
+	s.deposit(1, one(1, new(big.Int).Mul(e8, bi(100))))
+	s.borrow(0, one(0, new(big.Int).Mul(e6, bi(150)))) // inside at 0.8, outside at 0.5 (limit 100)
+	s.borrow(1, one(0, new(big.Int).Mul(e6, bi(60))))  // inside at both
+	s.beginBlock(86400)
+	boundary := func(u int) {
+		o := w.observe(s.ctx)
+		pr := s.prices()
+		x0 := amountFor(s.headroomSynced(u, o), 0, pr[0])
+		best := s.largestAccepted(x0, 3, func(x *big.Int) bool {
+			return s.try(func(cx sdk.Context) error { return k.Borrow(cx, w.users[u], coinsOf(one(0, x))) })
+		})
+		if best != nil {
+			save, saveFloor := s.ctx, s.floor
+			s.ctx, _ = save.CacheContext()
+			s.borrow(u, one(0, new(big.Int).Add(best, bi(1)))) // one more than the largest accepted: refused
+			s.ctx, s.floor = save, saveFloor
+			s.borrow(u, one(0, best))
+			out.Note("scenario:ltv-change:boundary-solved")
+		}
+		s.withdraw(u, one(1, bi(1))) // at the boundary even one unit of collateral is too much (or leaves it inside)
+	}
+	for _, ltv := range []string{"0.5", "0.8", "0.333333333333333333"} {
+		mms := s.paramsMarkets()
+		mm := *mms[1]
+		mm.BorrowLimit.LoanToValue = dec(ltv)
+		mms[1] = &mm
+		s.setParams(mms, cf.minBorrow, "ltv", 6)
+		s.borrow(0, one(0, e6))   // user 0 is outside at 0.5: refused
+		s.withdraw(0, one(1, e8)) // and may not take collateral out
+		s.liquidate(3, 1)         // user 1: inside at 0.5 and 0.8 (refused), outside at 0.333 (limit 66.6: allowed)
+		boundary(1)
+		s.liquidate(2, 0) // user 0: outside at 0.5 (allowed)
+		s.beginBlock(3600)
+	}
+	out.Note("scenario:ltv-change")
 }
 
 // Pure correspondence of the four sync formulas (SyncSupplyInterest: mul-then-quo, added only when positive;
